@@ -89,6 +89,11 @@ OPS = {
     "mask_add": lambda e: e.am + e.w, "mask_rmul": lambda e: e.w * e.am, "mask_reshape": lambda e: e.am.reshape("new", e.am.dims[0]),
     "mask_broadcast": lambda e: e.am.broadcast([Axis(np.array([1, 2]), "k")] + list(e.am.axes)), "mask_bca": lambda e: da.broadcast_arrays(e.am, e.w),
     "mask_array": lambda e: da.array([e.am, e.w]), "mask_newaxis": lambda e: e.am.newaxis("n"), "mask_stack": lambda e: da.stack([e.am, e.am], axis="s"),
+    # ---- an operand that already HAS the inserted single-label dimension (label None, from newaxis): broadcasting it onto a labelled target
+    "none_broadcast": lambda e: e.n1.broadcast([Axis(np.array([5]), "n"), e.n1.axes[1].copy()]),
+    "none_bca": lambda e: da.broadcast_arrays(e.n1, DimArray(np.zeros((1, 3)), axes=[Axis(np.array([5]), "n"), e.n1.axes[1].copy()])),
+    "none_add": lambda e: e.n1 + DimArray(np.zeros((1, 3)), axes=[Axis(np.array([5]), "n"), e.n1.axes[1].copy()]),
+    "none_array": lambda e: da.array([e.n1, DimArray(np.zeros((1, 3)), axes=[Axis(np.array([5]), "n"), e.n1.axes[1].copy()])], axis="s"),
 }
 
 
@@ -139,8 +144,10 @@ def make_env(variant="fresh", semicolon=False):
     e.ds2b["a"] = e.b
     e.am = e.an[e.an > float(np.nanmin(e.an.values))]       # public indexing: 1-D, its axis is a plain Axis named "<x>,y" with tuple labels
     e.w = D.build_impl(D.spec(["w"], [[7, 5]], ["i"], base=6))
+    e.n1 = e.a1.newaxis("n")
+    e.n1T = e.n1.T                    # live alias sharing the Axis objects of n1
     e.operands = {"a": e.a, "aT": e.aT, "a3": e.a3, "an": e.an, "b": e.b, "a1": e.a1, "a0": e.a0, "ds": e.ds, "ds2": e.ds2, "ds2b": e.ds2b,
-                  "am": e.am, "w": e.w}
+                  "am": e.am, "w": e.w, "n1": e.n1, "n1T": e.n1T}
     return e
 
 
@@ -151,4 +158,5 @@ def adapt(name, semicolon):
 
 
 SEMI_OPS = ["reshape", "reshape_fail", "reshape_same", "reshape_group", "flatten", "unflatten", "T", "newaxis", "add", "align_outer", "stack", "Dataset_ctor", "sum_all", "cumsum", "copy",
-            "mask_add", "mask_rmul", "mask_reshape", "mask_broadcast", "mask_bca", "mask_array", "mask_newaxis", "mask_stack"]
+            "mask_add", "mask_rmul", "mask_reshape", "mask_broadcast", "mask_bca", "mask_array", "mask_newaxis", "mask_stack",
+            "none_broadcast", "none_bca", "none_add", "none_array"]
